@@ -1117,7 +1117,9 @@ impl Case {
             .real_stderr
             .lines()
             .find(|l| l.contains("panicked at"))
-            .map(|l| l.replace(&repo, "<repo>"))
+            // (only the location: the line also carries the OS thread id, which differs per run)
+            .and_then(|l| l.split("panicked at ").nth(1))
+            .map(|l| l.trim_end_matches(':').replace(&repo, "<repo>"))
             .unwrap_or_default();
         let mut any_failed = false;
         let mut expected_blocks: Vec<&[u8]> = vec![];
